@@ -32,7 +32,11 @@ def build_puppet(src, toolchain="1.89", opt=0, pie=True, extra=()):
         flags += ["-C", "relocation-model=static", "-C", "link-arg=-no-pie"]
     flags += list(extra)
     _, ver, _ = sh(["rustc", tc, "-vV"])
-    h = hashlib.sha1((src.read_text() + " ".join(flags) + ver).encode()).hexdigest()[:12]
+    # optional C companion <stem>.c: linked in, compiled WITHOUT .eh_frame entries, so that the call frame
+    # information of its functions exists in .debug_frame only (mixed binaries: C05)
+    csrc = src.with_suffix(".c")
+    ctext = csrc.read_text() if csrc.exists() else ""
+    h = hashlib.sha1((src.read_text() + ctext + " ".join(flags) + ver).encode()).hexdigest()[:12]
     PUPPET_BUILD.mkdir(parents=True, exist_ok=True)
     d = PUPPET_BUILD / f"{src.stem}-{toolchain}-O{opt}-{'pie' if pie else 'nopie'}-{h}"
     exe = d / src.stem
@@ -40,6 +44,13 @@ def build_puppet(src, toolchain="1.89", opt=0, pie=True, extra=()):
         d.mkdir(parents=True, exist_ok=True)
         # keep the source next to the binary under its own name: DW_AT_name / line tables refer to it
         tmp = d / f"{src.stem}.{os.getpid()}.tmp"
+        if ctext:
+            obj = d / f"{src.stem}_c.{os.getpid()}.o"
+            rc, so, se = sh(["cc", "-g", "-O0", "-fno-asynchronous-unwind-tables", "-fno-unwind-tables", "-fno-omit-frame-pointer",
+                             "-c", str(csrc), "-o", str(obj)], check=False, timeout=120)
+            if rc != 0:
+                raise ToolError(f"C companion {csrc} does not compile: {se[-2000:]}")
+            flags = flags + ["-C", f"link-arg={obj}"]
         rc, so, se = sh(["rustc", tc] + flags + ["--crate-name", src.stem, "-o", str(tmp), str(src)],
                         check=False, timeout=600)
         if rc != 0:
@@ -70,7 +81,7 @@ def user_funcs(exe, crate):
         p = line.split(None, 3)
         if len(p) == 4 and re.fullmatch(r"[0-9a-f]+", p[0]) and re.fullmatch(r"[0-9a-f]+", p[1]) and p[2] in "tTwW":
             name, a, s = p[3], int(p[0], 16), int(p[1], 16)
-            if (name.startswith(crate + "::") or name.startswith("<" + crate + "::")) and s > 0:
+            if (name.startswith(crate + "::") or name.startswith("<" + crate + "::") or name.startswith(crate + "_c_")) and s > 0:
                 res.append((name, a, a + s))
     return sorted(set(res), key=lambda x: x[1])
 
@@ -293,6 +304,7 @@ TailPos == {self.tail}
   Lifecycle = {"TRUE" if lifecycle else "FALSE"}
   Signals = {"TRUE" if getattr(self, "signals", False) else "FALSE"}
   Extras = {"TRUE" if getattr(self, "extras", False) else "FALSE"}
+  Frames = {"TRUE" if getattr(self, "frames", False) else "FALSE"}
 """
         return d, cfg_common
 
@@ -402,7 +414,7 @@ def to_events(p, obs, attach=False):
             else:
                 rip, tick = after.get("rip"), after.get("tick")
                 e["idx"] = p.index.get((rip, tick), 0)
-                e["real_pc"] = rip
+                e["real_pc"] = rip if rip is not None else -1
                 if "breakpoint" in kinds or ret.get("kind") == "breakpoint" and name in ("start", "continue"):
                     e["said"] = "breakpoint"
                 elif "signal" in kinds or ret.get("kind") == "signal":
@@ -424,8 +436,8 @@ def to_events(p, obs, attach=False):
                     e["bt"] = [f["ip"] for f in after["bt"]]
                 elif "bt_err" in after or "bt_panic" in after:
                     e["bt"] = []
-        elif name in ("call", "watch_addr"):
-            e["cmd"] = "call" if name == "call" else "watch"
+        elif name in ("call", "watch_addr", "frame"):
+            e["cmd"] = {"call": "call", "watch_addr": "watch", "frame": "frame"}[name]
             rip, tick = after.get("rip"), after.get("tick")
             e["idx"] = p.index.get((rip, tick), 0)
         else:
@@ -441,6 +453,8 @@ def judge(p, events, tag):
     """TLC evaluates TraceSession over the recorded events; returns list of verdict records."""
     d, cfg = p.tla_data(set(), 0, 0, root="MCT", base="TraceSession")
     tf = d / f"{tag}.trace.ndjson"
+    # TLC's JSON reader has no null: an observation that could not be made is -1 (the spec's "unknown")
+    events = [{k: (-1 if v is None else v) for k, v in e.items()} for e in events]
     vlib.ndjson_write(tf, events)
     cfgt = cfg + "SPECIFICATION TraceSpec\nINVARIANT TraceDone\n"
     r = tlc_in(d, "MCT", cfgt, "MCT.cfg", workers=1, env={"TRACE": str(tf)}, timeout=300, heap="3g")
